@@ -45,6 +45,7 @@ fn install_scripts(env: &mut Env, case: &Value) {
             refuse_with: (refuse != 0).then_some(refuse),
             stall: get_bool(s, "stall", false),
             fall_back: (fb_after != 0).then_some((fb_after, get_u64(s, "fall_back_to", 4) as u8)),
+            silent: get_bool(s, "silent", false),
         };
         match state {
             Some(st) => {
@@ -232,7 +233,13 @@ pub fn run(case: &Value, seed: u64) -> Obj {
             t.insert("is_in_state_op".into(), json!(r.is_in_state(SubDeviceState::Op)));
         }
         out.insert("txrx".into(), Value::Object(t));
-        out.insert("al_at_txrx".into(), al_states(&env.seg).0);
+        // what a status read gets to see: a device that does not answer shows as 0 (None)
+        out.insert(
+            "al_at_txrx".into(),
+            Value::Array(
+                env.seg.devices.iter().map(|d| json!(if d.al_silent { 0 } else { d.al_state & 0x0F })).collect(),
+            ),
+        );
     }
     out.insert("frames".into(), json!(env.seg.frames_processed()));
     out
